@@ -182,6 +182,8 @@ def build():
                'if *kind == AluOpKind::HornerAcc { if let Some(acc) = intermediate_out { proof { assert(cnt(uc0, *acc) <= 0x10_0004 * oi_); } let cur_ = match self.use_counts.get(acc) { Some(v_) => *v_, None => 0 }; self.use_counts.insert(*acc, cur_ + 1); } }')
     su.rewrite('R5', 'for &id in inputs.iter().flatten() { *self.use_counts.entry(id).or_default() += 1; }',
                'for gi_ in 0..inputs.len() { for wi_ in 0..inputs[gi_].len() { let id = inputs[gi_][wi_]; let ghost m_prev = self.use_counts@; proof { assert(cnt(uc0, id) <= 0x10_0004 * oi_); lemma_occ2_bound(gdone, id); lemma_occ_bound(acc, id); } let cur_ = match self.use_counts.get(&id) { Some(v_) => *v_, None => 0 }; proof { assert(cur_ as int == cnt(self.use_counts@, id)); assert(acc.len() == wi_); } self.use_counts.insert(id, cur_ + 1); } }')
+    from vf.unit import normalize_let_chains
+    normalize_let_chains(su)
     for c_ in SU_REQ:
         su.requires(*c_)
     for c_ in SU_ENS:
